@@ -140,5 +140,69 @@ impl LocalSenderLinkAcceptor {
 #[verifier::external_body]
 pub fn sender_attach_error_is_fatal(e: &SenderAttachError) -> (r: bool) { unimplemented!() }
 
+// ---------------------------------------------------------------------------------------------------------------
+// LinkAcceptor (acceptor/link.rs): which local endpoint answers a peer's attach, and what `accept` reports on a stopped session
+pub enum Role { Sender, Receiver }
+pub struct AttachR { pub role: Role, pub rest: Attach }
+pub struct Receiver { pub inner: ReceiverInner }
+pub enum LinkEndpoint { Sender(Sender), Receiver(Receiver) }
+pub enum SessionStopReason { Ended, Other(u8) }
+impl Clone for SessionStopReason { #[verifier::external_body] fn clone(&self) -> (r: Self) ensures r == *self { unimplemented!() } }
+pub enum AcceptorAttachError { SessionStopped(SessionStopReason), Sender(SenderAttachError), Receiver(ReceiverAttachError) }
+#[verifier::external_body]
+pub fn acc_err_from_receiver(e: ReceiverAttachError) -> (r: AcceptorAttachError) { unimplemented!() }
+#[verifier::external_body]
+pub fn acc_err_from_sender(e: SenderAttachError) -> (r: AcceptorAttachError) { unimplemented!() }
+pub struct RecvAcc { pub g: Ghost<int> }
+pub struct SendAcc { pub g: Ghost<int> }
+impl RecvAcc {
+    #[verifier::external_body]
+    pub fn accept_incoming_attach(&self, shared: &SharedLinkAcceptorFields, remote_attach: AttachR, session: &mut ListenerSessionH) -> (r: Result<Receiver, ReceiverAttachError>)
+        ensures final(session).stop == old(session).stop, final(session).engine_gone == old(session).engine_gone, final(session).session_stop_reason == old(session).session_stop_reason,
+    { unimplemented!() }
+}
+impl SendAcc {
+    #[verifier::external_body]
+    pub fn accept_incoming_attach(&self, shared: &SharedLinkAcceptorFields, remote_attach: AttachR, session: &mut ListenerSessionH) -> (r: Result<Sender, SenderAttachError>)
+        ensures final(session).stop == old(session).stop, final(session).engine_gone == old(session).engine_gone, final(session).session_stop_reason == old(session).session_stop_reason,
+    { unimplemented!() }
+}
+pub struct StopCellA { pub v: Ghost<Option<SessionStopReason>> }
+impl StopCellA {
+    #[verifier::external_body]
+    pub fn get(&self) -> (r: Option<&SessionStopReason>) ensures (match r { Some(x) => self.v@ == Some(*x), None => self.v@ is None }) { unimplemented!() }
+}
+pub struct ListenerSessionH { pub session_stop_reason: StopCellA, pub stop: Ghost<int>, pub pending: Ghost<Seq<AttachR>>, pub engine_gone: Ghost<bool> }
+impl ListenerSessionH {
+    /// `session.next_incoming_attach().await`: the next attach the session engine handed over, or None once the engine has stopped
+    #[verifier::external_body]
+    pub fn next_incoming_attach(&mut self) -> (r: Option<AttachR>)
+        ensures final(self).session_stop_reason == old(self).session_stop_reason, final(self).stop == old(self).stop, final(self).engine_gone@ == (r is None),
+    { unimplemented!() }
+}
+pub struct LinkAcceptor { pub shared: SharedLinkAcceptorFields, pub local_receiver_acceptor: RecvAcc, pub local_sender_acceptor: SendAcc }
+impl LinkAcceptor {
+//@@ fn file=fe2o3-amqp/src/acceptor/link.rs impl=`~impl<FS,FT>LinkAcceptor<FS,FT>where` name=accept_incoming_attach as=accept_incoming_attach_dispatch
+//@@ generics
+//@@ param remote_attach : AttachR
+//@@ param session : &mut ListenerSessionH
+//@@ subst `.map(LinkEndpoint::Receiver) .map_err(Into::into)` => `.map(|v: Receiver| -> (o: LinkEndpoint) ensures o == LinkEndpoint::Receiver(v) { LinkEndpoint::Receiver(v) }).map_err(|e: ReceiverAttachError| -> (o: AcceptorAttachError) { acc_err_from_receiver(e) })` rule=R17,R18
+//@@ subst `.map(LinkEndpoint::Sender) .map_err(Into::into)` => `.map(|v: Sender| -> (o: LinkEndpoint) ensures o == LinkEndpoint::Sender(v) { LinkEndpoint::Sender(v) }).map_err(|e: SenderAttachError| -> (o: AcceptorAttachError) { acc_err_from_sender(e) })` rule=R17,R18
+//@@ spec
+    ensures
+        r is Ok && remote_attach.role is Sender ==> r->Ok_0 is Receiver,       // [C11.listener.role-complement] [C13.listener.role-complement] a peer that attaches as SENDER is answered by a local receiving link, a peer that attaches as receiver by a local sending link: the answering attach carries the complementary role under the same link name
+        r is Ok && remote_attach.role is Receiver ==> r->Ok_0 is Sender,
+        final(session).engine_gone == old(session).engine_gone, final(session).session_stop_reason == old(session).session_stop_reason,
+//@@ end
+
+//@@ fn file=fe2o3-amqp/src/acceptor/link.rs impl=`~impl<FS,FT>LinkAcceptor<FS,FT>where` name=accept
+//@@ param session : &mut ListenerSessionH
+//@@ subst `self.accept_incoming_attach(remote_attach, session)` => `self.accept_incoming_attach_dispatch(remote_attach, session)` rule=R2
+//@@ spec
+    ensures
+        final(session).engine_gone@ ==> r == Err::<LinkEndpoint, AcceptorAttachError>(AcceptorAttachError::SessionStopped(match old(session).session_stop_reason.v@ { Some(x) => x, None => SessionStopReason::Ended })),   // [C14.accept.stopped-session-says-why] an accept on a session that has stopped fails with SessionStopped carrying the published reason (the peer's End error, the connection's fate); Ended only if none was recorded
+//@@ end
+}
+
 } // verus!
 fn main() {}
